@@ -431,6 +431,7 @@ func (mc *Chain) ThresholdNumBLSSigReceived(ctx context.Context, mr *Round, blsT
 	)
 	if err != nil {
 		Logger.Error("calculates the Gp Sign", zap.Error(err))
+		return false
 	}
 
 	var rbOutput = encryption.Hash(groupSignature.GetHexString())
